@@ -362,3 +362,21 @@ pub fn too_expensive(g: &G, toks: &[char], limit: u64, l: &mut Local) -> bool {
     }
     false
 }
+
+
+/// the same case on every other input representation (C10's comparison against the slice baseline: Stream plain / boxed,
+/// arrays, mapped token-span inputs with gapped spans, IterInput, IoInput, with_context, map_span), reported under `id`
+pub fn kinds_case(id: &str, g: &G, toks: &[char], seed: u64, l: &mut Local) -> CaseRes {
+    // slices exist on two of the kinds only and are compared by address: those grammars stay with their own check
+    if g.any_node(&|n| matches!(n, G::ToSlice(_) | G::MapSlice(_))) {
+        l.bump("kinds_skipped_slice_nodes");
+        return Ok(());
+    }
+    l.bump("cases_run_on_every_input_kind");
+    super::c10::check_inner("rand", g, toks, seed, l).map_err(|(mut c, f)| {
+        c.prop = id.into();
+        c.sub = "kinds".into();
+        c.extra = serde_json::json!({ "gap_seed": seed });
+        (c, Fail::new(f.sig.replace("C10/", &format!("{}/input-kind/", id)), f.msg))
+    })
+}
